@@ -269,7 +269,7 @@ def symbolic_hosts(src, g, sens, well_formed=True):
             srvb = {x: src.bool("%s_srv_%s" % (nm, x)) for x in g.services}
             prcb = {x: src.bool("%s_prc_%s" % (nm, x)) for x in g.processes}
             if src.symbolic and well_formed:
-                sx.assume(z3.PbEq([(sx.zbool(b), 1) for b in osb.values()], 1))
+                sx.assume(sx.exactly_one([sx.zbool(b) for b in osb.values()]))
                 sx.assume(z3.Or([sx.zbool(b) for b in srvb.values()]))
                 sx.assume(z3.Or([sx.zbool(b) for b in prcb.values()]))
             bits[a] = dict(os=dict(osb), srv=dict(srvb), prc=dict(prcb))
@@ -311,7 +311,7 @@ def host_vulnerable(host, exploits, privescs, root):
 
 
 def host_well_formed(host):
-    return z3.And(z3.PbEq([(zb(b), 1) for b in host.os.values()], 1),
+    return z3.And(sx.exactly_one([zb(b) for b in host.os.values()]),
                   z3.Or([zb(b) for b in host.services.values()]),
                   z3.Or([zb(b) for b in host.processes.values()]))
 
